@@ -407,6 +407,8 @@ def _run_instance(c, tree, mod, label, recv, rep, timeout_ms, lookup):
     rep.src = (sha, l0, l1)
     rep.decorators = extract.dropped_decorators(target_node)
     interp = Interp(ctx, vars(mod), contract_lookup=lookup, loop_specs=c.loops, unit_name=rep.name)
+    if c.max_depth:
+        interp.max_depth = c.max_depth
     interp.current_module = mod
     interp.method_disciplines = dict(c.methods)
     interp.prefer_shadow = c.prefer_shadow
@@ -467,6 +469,13 @@ def _run_instance(c, tree, mod, label, recv, rep, timeout_ms, lookup):
         env0 = SpecEnv(interp, s0, spec_names)
         for rq in c.requires:
             s0.assume(env0.eval_bool(rq))
+        if c.requires:
+            # a precondition over a datum of D prunes its live cells too (the shadows are consulted per live cell)
+            for root, live in list(s0.live.items()):
+                term = interp.ctx.roots[root]
+                keep = [cc for cc in sorted(live) if interp.check_sat(s0, T.F_cell(term) == cc)]
+                if len(keep) != len(live):
+                    interp.narrow(s0, root, keep)
         interp.entry_state = s0.fork()
         a = (clo.d if isinstance(clo, V) else clo).node.args
         pos = [params[p.arg] for p in a.posonlyargs + a.args if p.arg in params]
